@@ -421,7 +421,7 @@ class kMinPathErrorCycles(walkmodel.AbstractWalkModelDiGraph):
         non_empty_weights = []
         non_empty_slacks = []
         for walk, weight, slack in zip(solution["walks"], solution["weights"], solution["slacks"]):
-            if len(walk) > 1:
+            if len(walk) > 1 or (len(walk) == 1 and self.flow_attr_origin == "node"):
                 non_empty_walks.append(walk)
                 non_empty_weights.append(weight)
                 non_empty_slacks.append(slack)
